@@ -184,7 +184,8 @@ def run(ctx):
                 desc = " ".join(tr)
                 ok = 1 <= n_att <= R and p.kind != "diverge"
                 if "handshake:ok" in tr:
-                    ok = ok and tr.index("handshake:ok") == max(i for i, x in enumerate(tr) if x.startswith("handshake:")) and p.kind == "normal"
+                    # (leaving through `return` - the loop's function may be a helper of authenticate - is leaving the loop after the success)
+                    ok = ok and tr.index("handshake:ok") == max(i for i, x in enumerate(tr) if x.startswith("handshake:")) and p.kind in ("normal", "return")
                 else:
                     ok = ok and p.kind == "raise" and (prog.exc_is(p.exc, "TimeoutError") or prog.exc_is(p.exc, PROTO))
                     if all(x == "handshake:TimeoutError" for x in tr if x.startswith("handshake:")):
@@ -202,7 +203,8 @@ def run(ctx):
         v = rst.env.get(f"{sp}._protocol")
         if v is not None and any(x == ("const", None) for x in subterms(v)):
             drops = True
-    closes = any(isinstance(n, ast.Call) and attr_call(n, "_protocol", "disconnect") for n in ast.walk(dis.node))
+    closes = any(isinstance(n, ast.Call) and attr_call(n, "_protocol", "disconnect") for n in ast.walk(dis.node)) or \
+        any(isinstance(n, ast.Call) and meth_is(t_, "disconnect") and strip(t_[1][1]) == ("attr", ("param", sp), "_protocol") for n, t_ in dsum.ta.terms_at.items())
     ctx.ob("C08.b", dis.qual, closes and drops, "_disconnect closes the protocol and sets self._protocol = None", func=dis.qual, file=file,
            construct="_disconnect body", fail="_disconnect does not both close the transport and drop the protocol object (the next send would reuse it)")
     con = ctx.fn(f"{LAN}._connect")
